@@ -116,6 +116,10 @@ func runC04(c *fw.Ctx) {
 			{Kind: "Upload", Proto: "resumable", Bucket: "b", Name: "x", Data: []byte("NEW"), Meta: newMeta, Conds: conds,
 				Between: &GOp{Kind: "Patch", Bucket: "b", Name: "x", PatchBody: []byte(`{"metadata":{"btw":"1"}}`)}},
 			{Kind: "Patch", Bucket: "b", Name: "x", PatchBody: []byte(`{"metadata":{"p":"q"},"contentType":"text/patched"}`), Conds: conds},
+			// a read-modify-write client sends back the whole resource it read earlier, stale version numbers included:
+			// the preconditions are judged against the STORED object, never against the request body
+			{Kind: "Patch", Bucket: "b", Name: "x", PatchBody: []byte(`{"metadata":{"rmw":"1"},"metageneration":"1","generation":"12345"}`), Conds: conds},
+			{Kind: "Patch", Bucket: "b", Name: "x", PatchBody: []byte(`{"metadata":{"rmw":"2"},"metageneration":"2"}`), Conds: conds},
 			{Kind: "Delete", Bucket: "b", Name: "x", Conds: conds},
 			{Kind: "Compose", Bucket: "b", Name: "x", Srcs: []GSrc{{Name: "s1"}, {Name: "s2"}}, Meta: gcs.ObjMeta{ContentType: "text/composed"}, Conds: conds},
 		}
@@ -185,7 +189,7 @@ func runC04(c *fw.Ctx) {
 		for _, h := range histories {
 			for _, conds := range combos {
 				all := mkOps(conds)
-				for _, op := range []GOp{all[0], all[6], all[7]} {
+				for _, op := range []GOp{all[0], all[6], all[7], all[9]} {
 					item++
 					if !c.Mine(item) {
 						continue
